@@ -13,7 +13,7 @@ RULE = ('HIST histories on Joliet levels 1-3 with divergent trees (Joliet-only a
         'the final image and the Joliet tree decoded again; a final doomed call with a name of more than 64 characters (or of at most 64 code points that need more than 64 UCS-2 units) must be refused; '
         'non-trivial: >= 3 accepted edits, >= 1 write, >= 1 Joliet entry; distinct = model shape fingerprints')
 BUDGET = {'quick': 40, 'thorough': 900}
-PROBES = ['joliet_trees_decoded', 'joliet_only_entry', 'iso_only_entry', 'non_bmp_name', 'name_64_chars', 'shared_extent_checked',
+PROBES = ['short_volume_size_remastered', 'joliet_trees_decoded', 'joliet_only_entry', 'iso_only_entry', 'non_bmp_name', 'name_64_chars', 'shared_extent_checked',
           'doomed_long_name_refused', 'joliet_dir_multi_sector', 'modified_in_place_then_decoded']
 ASSUMPTIONS = ['isosim/dec_iso.py decodes SVD names as UTF-16BE (Joliet: UCS-2BE; surrogate pairs tolerated)']
 
@@ -117,6 +117,54 @@ def check_image(ctx, data):
             break
 
 
+def short_volume_size_epilogue(ctx, rate=0.25):
+    """A stored fault in the image another writer (or a bit of damage) may leave: the volume space size in every descriptor
+    stops a few sectors short of the end of the last file.  The library repairs that on open; after open + write the Joliet
+    descriptor must carry the same size as the primary one, and the image be as long as both say."""
+    import struct
+    from isosim.disk import SimDisk, SimFile
+    m = ctx.model
+    disk = ctx.last_disk
+    if disk is None or m.hybrid or m.has('udf') or 'joliet' not in m.roots:
+        return
+    r = ctx.world.rng('short-size-epilogue')
+    if r.random() > rate:
+        return
+    data = bytearray(disk.data)
+    img = dec_iso.decode(bytes(data))
+    if not img.pvds or any(not a.rule.startswith('ecma119.9.3/order') for a in img.anoms):
+        return
+    space = img.pvds[0].space_size
+    # the last file must end where the volume ends, or nothing tells the library that the size is short
+    t = img.trees.get('iso')
+    ends = [rec.extent + (rec.size + 2047) // 2048 for rec in (t.records if t else []) if not rec.is_dir and rec.size > 0]
+    if not ends or max(ends) != space:
+        return
+    short = space - r.choice((1, 1, 2))
+    for vd in img.pvds + [v for v in img.svds if v.kind in ('joliet', 'enhanced')]:
+        off = vd.sector * 2048 + 80
+        data[off:off + 8] = struct.pack('<L', short) + struct.pack('>L', short)
+    iso = ctx.d.pm.PyCdlib()
+    out = SimDisk('short-size-out')
+    try:
+        iso.open_fp(SimFile(SimDisk('short-size-in', bytes(data)), 'rb'))
+        iso.write_fp(SimFile(out, 'wb'))
+        iso.close()
+    except Exception as e:      # noqa
+        ctx.stats['short_size_not_remastered:%s' % type(e).__name__] += 1
+        return
+    ctx.probes['short_volume_size_remastered'] += 1
+    img2 = dec_iso.decode(bytes(out.data))
+    sizes = {(v.kind if hasattr(v, 'kind') else 'pvd'): v.space_size for v in img2.pvds[:1]}
+    for v in img2.svds:
+        if v.kind in ('joliet', 'enhanced'):
+            sizes[v.kind] = v.space_size
+    if len(set(sizes.values())) > 1:
+        ctx.violate(('joliet/volume-space-size-differs-from-primary-after-short-size-repair',), repr(sizes), fatal=False)
+    elif img2.pvds and img2.pvds[0].space_size * 2048 != len(out.data):
+        ctx.violate(('joliet/volume-space-size-vs-image-length-after-short-size-repair',), '%d sectors declared, image %d bytes' % (img2.pvds[0].space_size, len(out.data)), fatal=False)
+
+
 class C09(H.Oracle):
     prop = PROP
 
@@ -125,6 +173,7 @@ class C09(H.Oracle):
 
     def on_end(self, ctx):
         H.inplace_epilogue(ctx, 'joliet', check_image)
+        short_volume_size_epilogue(ctx)
 
     def on_doomed(self, ctx, op, out):
         if out.ok:
